@@ -270,8 +270,8 @@ Proof.
     unfold cnt. apply (proj1 (count_occ_In Nat.eq_dec _ _)) in Hin. lia.
 Qed.
 
-Theorem wait_one_at_a_time g s t id s' :
-  ostep_do {| o_mode := MWait; o_guard := g |} s (OStart t id) = Some s' ->
+Theorem wait_one_at_a_time g sc s t id s' :
+  ostep_do {| o_mode := MWait; o_guard := g; o_selfcancel := sc |} s (OStart t id) = Some s' ->
   active s = [] /\ exists rest, q s = id :: rest.
 Proof.
   unfold ostep_do.
@@ -281,15 +281,17 @@ Proof.
 Qed.
 
 Theorem cancel_only_for_newer_event c s t id s' :
-  ostep_do c s (OEnd t id OCancelled) = Some s' -> o_mode c = MCancel /\ q s <> [].
+  ostep_do c s (OEnd t id OCancelled) = Some s' ->
+  In id (o_selfcancel c) \/ (o_mode c = MCancel /\ q s <> []).
 Proof.
   unfold ostep_do.
   destruct ((onow s <=? t) && in_coro id s && no_owed s); [|discriminate].
-  destruct (o_mode c) eqn:Em; cbn iota beta.
+  destruct (memn id (o_selfcancel c)) eqn:Esc; [intros _; left; now apply memn_true_in|].
+  cbn [orb]. destruct (o_mode c) eqn:Em; cbn iota beta.
   - intros H; discriminate H.
   - destruct (q s) eqn:Eq.
     + simpl. intros H. discriminate H.
-    + intros _. split; [reflexivity|discriminate].
+    + intros _. right. split; [reflexivity|discriminate].
   - intros H; discriminate H.
 Qed.
 
